@@ -134,6 +134,24 @@ def to_int(x):
     raise Unsupported(f"int({x!r})")
 
 
+def to_int_trunc(x):
+    """float -> int as XLA does it (truncation toward zero); symbolic reals become ToInt terms"""
+    if isinstance(x, z3.ExprRef) and z3.is_real(x) and not z3.is_app_of(x, z3.Z3_OP_TO_REAL):
+        return z3.If(x >= 0, z3.ToInt(x), -z3.ToInt(-x))
+    return to_int(x)
+
+
+def wrap_int(x, lo, hi):
+    """reduce an integer into the representable range [lo, hi] of a narrow integer type (wrap-around)"""
+    n = hi - lo + 1
+    if conc(x):
+        return (int(x) - lo) % n + lo
+    a, b = interval(x)
+    if a is not None and b is not None and a >= lo and b <= hi:
+        return x
+    return (x - lo) % n + lo
+
+
 def to_bool(x):
     if isinstance(x, z3.ExprRef):
         if z3.is_bool(x):
